@@ -1,16 +1,25 @@
-# triage script (not a check): deferred initialisation of a Redfield tensor inside a units context
-import numpy, quantarhei as qr
-from quantarhei import TestAggregate
-from quantarhei.qm import RedfieldRelaxationTensor, TDRedfieldRelaxationTensor
-def mk():
-    agg = TestAggregate("dimer-2-env")
-    with qr.energy_units("1/cm"):
-        agg.set_resonance_coupling(0, 1, 30.0)
-    agg.build()
-    return agg.get_Hamiltonian(), agg.get_SystemBathInteraction()
-for cls in (RedfieldRelaxationTensor, TDRedfieldRelaxationTensor):
-    h, s = mk(); a = cls(h, s, initialize=False); a.initialize()
-    h, s = mk(); b = cls(h, s, initialize=False)
-    with qr.energy_units("1/cm"):
-        b.initialize()
-    print(cls.__name__, "max|data|", numpy.max(numpy.abs(a.data)), "max diff", numpy.max(numpy.abs(a.data - b.data)))
+"""C07-K: get_RelaxationTensor(..., relaxation_cutoff_time=T) - the time-independent Redfield tensor ignores the cut-off
+that the time-dependent one honours: the last time index of the TD tensor is not the TI tensor 'built from the same inputs'."""
+import numpy
+import quantarhei as qr
+
+ta = qr.TimeAxis(0.0, 1000, 1.0)
+with qr.energy_units("1/cm"):
+    cf = qr.CorrelationFunction(ta, dict(ftype="OverdampedBrownian", reorg=30.0, cortime=100.0, T=300))
+    m1 = qr.Molecule([0.0, 12000.0]); m2 = qr.Molecule([0.0, 12200.0])
+m1.set_transition_environment((0, 1), cf); m2.set_transition_environment((0, 1), cf)
+agg = qr.Aggregate([m1, m2])
+with qr.energy_units("1/cm"):
+    agg.set_resonance_coupling(0, 1, 80.0)
+agg.build()
+out = {}
+for cut in (None, 60.0):
+    RT, ham = agg.get_RelaxationTensor(ta, relaxation_theory="standard_Redfield", time_dependent=False, relaxation_cutoff_time=cut)
+    RD, ham2 = agg.get_RelaxationTensor(ta, relaxation_theory="standard_Redfield", time_dependent=True, relaxation_cutoff_time=cut)
+    with qr.eigenbasis_of(ham):
+        a = numpy.array(RT.data); b = numpy.array(RD.data[-1])
+    out[cut] = numpy.max(numpy.abs(a - b)) / numpy.max(numpy.abs(a))
+    print("cut-off %s: relative difference TD(last) vs TI = %.3e" % (cut, out[cut]))
+if out[60.0] > 10 * max(out[None], 1e-12):
+    print("DEFECT: with a cut-off time the time-independent tensor is not the limit of the time-dependent one"); raise SystemExit(1)
+print("OK")
